@@ -374,6 +374,11 @@ def main():
         s = build()
         log("built in %.1fs" % s)
         return 0
+    if a[0] == "miri-setup":
+        import xadd_driver
+        ok, text = xadd_driver.miri_setup()
+        log("miri sysroot: %s" % ("ready" if ok else "NOT available (the C18 check then runs without its Miri pass): " + text[-400:]))
+        return 0
     if a[0] == "replay":
         return replay(a[1])
     if a[0] == "check":
